@@ -437,6 +437,21 @@ def execute(program, ctx, mode):
     for i, bs in enumerate(W['pifaces']):
         P.append(InterfaceClass('P%d' % i, tuple(P[b] for b in bs) or (Interface,), {}, __module__='zisim.r'))
     nP = len(P)
+    # swarm knob (one world in four): every provided interface has a second, equal-named object (`class IEvent(Interface)`
+    # executed twice, a reloaded module).  Interfaces compare and hash by (name, module), so the two are interchangeable as the
+    # `provided` argument of every mutator and lookup; which one is handed in rotates.  (Provided interfaces are never re-based
+    # or dropped here, so the pair never meets the weak dependents maps.)
+    ptwin_world = h64(program.get('seed') or 0, 'equal-named-provided-twins') % 4 == 0
+    P2 = [InterfaceClass('P%d' % i, tuple(P[b] for b in bs) or (Interface,), {}, __module__='zisim.r')
+          for i, bs in enumerate(W['pifaces'])] if ptwin_world else P
+    provno = [0]
+
+    def PP(p):
+        provno[0] += 1
+        if ptwin_world and provno[0] % 3 == 0:
+            ctx.probe('equal-named-twin-handed-in-as-provided')
+            return P2[p]
+        return P[p]
     pext = []
     for i, bs in enumerate(W['pifaces']):
         s = {i}
@@ -498,7 +513,7 @@ def execute(program, ctx, mode):
         """p index -> provided interface (None for handlers, Interface for index nP)"""
         if p is None or p < 0:
             return None
-        return P[p] if p < nP else Interface
+        return PP(p) if p < nP else Interface
 
     def p_matches(p2, p):
         """does registered provided p2 satisfy requested p?"""
@@ -1149,7 +1164,7 @@ def execute(program, ctx, mode):
         if pi is None:
             return None
         for i, x in enumerate(P):
-            if x is pi:
+            if x is pi or P2[i] is pi:
                 return i
         return '?'
 
@@ -1181,7 +1196,7 @@ def execute(program, ctx, mode):
         for (q, p, n) in keys:
             if p is None:
                 continue
-            g = reg.registered(shaped(real_req_none(q, len(live))), P[p], n)
+            g = reg.registered(shaped(real_req_none(q, len(live))), PP(p), n)
             w_ = live.get((r, q, p, n))
             if g is not w_:
                 ctx.violation('C09', 'registered', 'C09|registered|%s' % ('stale' if w_ is None else ('missing' if g is None else 'wrong')),
@@ -1363,7 +1378,7 @@ def execute(program, ctx, mode):
                     ctx.probe('identical-re-registration')
                 elif old is not None:
                     ctx.probe('overwrite')
-                mutate(('reg', r, real_req(req), P[p], nm, v))
+                mutate(('reg', r, real_req(req), PP(p), nm, v))
                 # (an identical re-registration "is a no-op": judged by what the registry answers afterwards, not by its
                 # internal change counter -- bumping it needlessly would not be observable through the public API)
                 live[(r, norm(req), p, nm)] = v
@@ -1394,10 +1409,10 @@ def execute(program, ctx, mode):
                     if eqs:
                         ctx.probe('unregister-equal-but-distinct')
                 if how == 1 and (op['sel'] >> 3) % 2:
-                    mutate(('reg', r, real_req_none(kk[1], k), P[kk[2]], kk[3], None))      # register(None) == unregister
+                    mutate(('reg', r, real_req_none(kk[1], k), PP(kk[2]), kk[3], None))      # register(None) == unregister
                     ctx.probe('register-None')
                 else:
-                    mutate(('unreg', r, real_req_none(kk[1], k), P[kk[2]], kk[3], v))
+                    mutate(('unreg', r, real_req_none(kk[1], k), PP(kk[2]), kk[3], v))
                 if v is None or v is cur:
                     del live[kk]
                     if not any(k2[0] == r and len(k2[1]) == len(kk[1]) for k2 in live):
@@ -1483,12 +1498,12 @@ def execute(program, ctx, mode):
                         if regs[r] is not reg_now:
                             return
                         if sform == 'sub':
-                            m_ = ('sub', r, real_req(sreq), P[sp], succ)
+                            m_ = ('sub', r, real_req(sreq), PP(sp), succ)
                             mutlog.append(m_)
                             apply(regs, m_)
                             subs.append((r, norm(sreq), sp, succ))
                         else:
-                            m_ = ('reg', r, real_req(sreq), P[sp], nm, succ)
+                            m_ = ('reg', r, real_req(sreq), PP(sp), nm, succ)
                             mutlog.append(m_)
                             apply(regs, m_)
                             live[(r, norm(sreq), sp, nm)] = succ
@@ -1501,27 +1516,27 @@ def execute(program, ctx, mode):
                     if op.get('extra'):
                         # another subscriber under the same key, so that the leaf is replaced rather than deleted
                         v0 = vals[op['v'] % len(vals)]
-                        mutate(('sub', r, real_req(req), P[p], v0))
+                        mutate(('sub', r, real_req(req), PP(p), v0))
                         subs.append((r, norm(req), p, v0))
-                    regs[r].subscribe(real_req(req), P[p], mortal)
+                    regs[r].subscribe(real_req(req), PP(p), mortal)
                     if op.get('cached'):
                         # a remembered result keeps the value alive until the caches are dropped at the end of the mutator
-                        regs[r].subscriptions(tuple(Interface if x is None else x for x in real_req(req)), P[p])
+                        regs[r].subscriptions(tuple(Interface if x is None else x for x in real_req(req)), PP(p))
                         ctx.probe('mortal-value-held-by-a-cache')
                     mortal.fin = fin
                     how = op['how']
                     if how == 0:
                         del mortal
-                        m_ = ('unsub', r, real_req(req), P[p], None)
+                        m_ = ('unsub', r, real_req(req), PP(p), None)
                         gone = lambda t: True
                     elif how == 1:
-                        m_ = ('unsub', r, real_req(req), P[p], mortal)      # (the log entry keeps it alive until the end of this step)
+                        m_ = ('unsub', r, real_req(req), PP(p), mortal)      # (the log entry keeps it alive until the end of this step)
                         del mortal
                         gone = lambda t: False
                     else:
                         eqv = [x for x in vals if x.eq == 'e'][0]
                         del mortal
-                        m_ = ('unsub', r, real_req(req), P[p], eqv)
+                        m_ = ('unsub', r, real_req(req), PP(p), eqv)
                         gone = lambda t, eqv=eqv: t == eqv
                     apply(regs, m_)
                     if how == 1:
@@ -1537,14 +1552,14 @@ def execute(program, ctx, mode):
                     last_mut[0] = 'unsubscribe'
                     opk = (norm(req), p)
                 else:
-                    regs[r].register(real_req(req), P[p], nm, mortal)
+                    regs[r].register(real_req(req), PP(p), nm, mortal)
                     if op.get('cached'):
-                        regs[r].lookup(tuple(Interface if x is None else x for x in real_req(req)), P[p], nm)
+                        regs[r].lookup(tuple(Interface if x is None else x for x in real_req(req)), PP(p), nm)
                         ctx.probe('mortal-value-held-by-a-cache')
                     mortal.fin = fin
                     del mortal
                     v2 = vals[op['v'] % len(vals)]
-                    m_ = ('reg', r, real_req(req), P[p], nm, v2)        # overwrite: the old value is released by the store
+                    m_ = ('reg', r, real_req(req), PP(p), nm, v2)        # overwrite: the old value is released by the store
                     apply(regs, m_)
                     mutlog.insert(len(mutlog) - len(fired), m_)
                     if not (fired and op['sform'] == 'reg' and (norm(sreq), sp) == (norm(req), p)):
@@ -1677,17 +1692,17 @@ def execute(program, ctx, mode):
                 regs[b].__dict__['_unreadable'] = True
                 try:
                     try:
-                        mutate(('reg', r, real_req(rq), P[pp], nm, v))
+                        mutate(('reg', r, real_req(rq), PP(pp), nm, v))
                         outcome = 'ok'
                     except Unreadable:
                         outcome = 'Unreadable'
                 finally:
                     regs[b].__dict__.pop('_unreadable', None)
-                if outcome == 'ok' or regs[r].registered(real_req(rq), P[pp], nm) is v:
+                if outcome == 'ok' or regs[r].registered(real_req(rq), PP(pp), nm) is v:
                     # recorded (the library stores first and notifies afterwards); were it rolled back instead, that would be
                     # a legitimate choice too: the model follows what `registered` says, and everything else must agree with it
                     if outcome != 'ok':
-                        mutlog.append(('reg', r, real_req(rq), P[pp], nm, v))       # the twins replay it as an ordinary registration
+                        mutlog.append(('reg', r, real_req(rq), PP(pp), nm, v))       # the twins replay it as an ordinary registration
                     live[(r, rq, pp, nm)] = v
                 else:
                     outcome += '/rolled-back'
@@ -1713,7 +1728,7 @@ def execute(program, ctx, mode):
                 n_ = 0
                 while regs[r]._generation != g0 and regs[r]._generation < g0 and n_ < 60:
                     v = va if live.get((r, rq, pp, nm)) is not va else vb
-                    mutate(('reg', r, real_req(rq), P[pp], nm, v))
+                    mutate(('reg', r, real_req(rq), PP(pp), nm, v))
                     live[(r, rq, pp, nm)] = v
                     n_ += 1
                 if regs[r]._generation == g0:
